@@ -1,3 +1,4 @@
+import WS.Lemmas.HlogProgram
 import WS.Lemmas.AuditGaps
 import WS.Lemmas.RoleGeneric
 import WS.Lemmas.ReaderRejects
@@ -94,6 +95,24 @@ theorem failing_handler_error_returned (c : Conn) (hc : ReaderIdle' c) (id : Nat
       c'.r.hlog = c.r.hlog ++ [.ping payload] ∧ c'.w.wire = c.w.wire := by
   first | exact AuditGaps.failing_ping_handler .. | (apply AuditGaps.failing_ping_handler <;> assumption)
 
+
+open WS.Codec WS.ReaderDecodes WS.ReadProgram in
+/-- C08 for EVERY read program (`runProg`, C03.any_read_program): whatever sequence of NextReader and
+    Read(k) calls the application makes on a stream of conformant messages — reading everything, abandoning
+    messages part-way, reading past their ends —, at every point the handler log is a PREFIX of the stream's
+    ping / pong frames in wire order with their exact payloads: each control frame is handed to its handler
+    at most once, never out of order, never with another payload, and none is invented
+    (`handlers_exactly_once` is the case of a program that reads a message to its end: then all of its
+    control frames have been handled) -/
+theorem any_read_program_hlog (c : Conn) (hc : ReaderIdle c) (msgs : List (Nat × List PFrame))
+    (hm : ∀ m ∈ msgs, (m.1 = 1 ∨ m.1 = 2) ∧ MsgShape m.1 m.2 ∧ (dataPayload m.2).length < 2 ^ 62 ∧
+            (c.r.limit ≤ 0 ∨ ((dataPayload m.2).length : Int) ≤ c.r.limit))
+    (rest : Bytes)
+    (hp : c.r.buf.pending = (msgs.map (fun m => encAll c.r.isServer m.2)).flatten ++ rest)
+    (hend : c.r.buf.t.together = false ∨ rest ≠ [])
+    (ops : List ROp) (hn : (ops.filter ROp.isNext).length ≤ msgs.length) :
+    (runProg ops c none).2.r.hlog <+: c.r.hlog ++ (msgs.map (fun m => ctlEvents m.2)).flatten := by
+  first | exact WS.HlogProgram.any_read_program_hlog .. | (apply WS.HlogProgram.any_read_program_hlog <;> assumption)
 
 /-! ### non-vacuity -/
 section NonVacuity
@@ -315,6 +334,32 @@ example : (nextReader witFailPing).2.r.readErr = some (.handler 7) ∧
     (nextReader witFailPing).2.r.hlog = [.pong [9], .ping [0x68, 0x69]] ∧
     (nextReader witFailPing).2.w.wire = [] ∧ (nextReader witFailPing).2.w.writeErr = none ∧
     (nextReader witFailPing).2.r.buf.pending = [0x81, 0x81, 1, 2, 3, 4, 0x41 ^^^ 1] := by decide
+
+section Program
+open WS.ReadProgram
+
+/-- a program that opens the message, reads three single bytes (crossing the ping) and stops -/
+def witHProg : List ROp := [.read 3, .next, .read 0, .read 0, .read 0]
+
+/-- non-vacuity of `any_read_program_hlog`: the hypotheses hold for `witSrv` -/
+example : (runProg witHProg witSrv none).2.r.hlog <+: witSrv.r.hlog ++ [.ping [0x70], .pong [0x71, 0x72]] := by
+  have h := any_read_program_hlog witSrv witSrv_idle [(2, witMsg)]
+    (by
+      intro m hm
+      simp only [List.mem_cons, List.mem_nil_iff, or_false] at hm
+      subst hm
+      exact ⟨Or.inr rfl, witMsg_shape, by decide, Or.inl (by decide)⟩)
+    [] (by decide) (Or.inl rfl) witHProg (by decide)
+  have e : (([(2, witMsg)] : List (Nat × List PFrame)).map (fun m => ctlEvents m.2)).flatten =
+      [.ping [0x70], .pong [0x71, 0x72]] := by decide
+  rw [e] at h
+  exact h
+
+/-- where that program stands: the ping between the first two fragments has been handled, the pong
+    before the last fragment not yet -/
+example : (runProg witHProg witSrv none).2.r.hlog = [.ping [0x70]] := by decide +kernel
+
+end Program
 
 end NonVacuity
 
